@@ -451,6 +451,10 @@ where
             && change.orchard() <= 1
             && change.sapling() == 0
             && change.transparent() == 0
+            // An ephemeral transparent output is not part of the change counts the fee is solved
+            // for, but it is listed in the finished balance, where it makes the shape
+            // non-canonical (and the bundle padded).
+            && !ephemeral_balance.is_some_and(|b| b.is_output())
             && match ironwood.outputs() {
                 [output] => constants.is_canonical_denomination(output.value()),
                 _ => false,
